@@ -43,7 +43,11 @@ def compileOp (j : Json) : R Json := do
     let c := validateClean gs s.qc.numQubits nIn outs
     let wf := wellFormed gs s.qc.numQubits
     let extra : List (String × Json) := [("valid", toJson v), ("clean", toJson c), ("wellformed", toJson wf),
-      ("in_fragment", toJson (inFragment inputs defs rets)),
+      ("in_fragment", toJson (inAnyFragment inputs defs rets unc)),
+      ("in_fragment_old", toJson (inFragment inputs defs rets)),
+      ("in_fragment_const", toJson (inFragmentConst inputs defs rets)),
+      ("in_fragment_multi", toJson (!unc && inFragmentMulti inputs defs rets)),
+      ("in_fragment_named", toJson (!unc && inFragmentNamed inputs defs rets)),
       ("in_clean_fragment", toJson (unc && inCleanFragment inputs defs rets)),
       ("in_xor_fragment", toJson (unc && inXorFragment inputs defs rets))]
     let xorPart : List (String × Json) :=
